@@ -5,13 +5,16 @@ EXTENDS Acl, TLC, Json, IOUtils
 Recs == ndJsonDeserialize(IOEnv.TRACE_FILE)
 VARIABLE i
 VerdictFilter(r) ==
-  LET lo == Lower(r.prefix, r.t, r.acl, <<>>) up == Upper(r.prefix, r.t, r.acl, <<>>) IN
+  LET lo == Lower(r.prefix, r.t, r.acl, <<>>) up == Upper(r.prefix, r.t, r.acl, <<>>)
+      rs == RaiseSet(r.prefix, r.out, r.t, Unite(r.acl), <<>>) IN
   IF ~IsSubseqTree(r.out, r.t) THEN "not-an-order-preserving-subtree"
   ELSE IF ~SubTree(r.out, up) THEN "uncovered-line-passed"
   ELSE IF ~SubTree(lo, r.out) THEN "covered-line-dropped"
+  ELSE IF rs = {} THEN "no-governing-rule-explains-the-result"
   ELSE IF r.out2 # r.out THEN "not-idempotent"
   ELSE IF HasUncovered(r.prefix, r.t, r.acl, <<>>) /\ ~r.raised THEN "strict-mode-did-not-raise"
   ELSE IF AllInLower(r.prefix, r.t, r.acl, <<>>) /\ r.raised THEN "strict-mode-raised-on-covered-tree"
+  ELSE IF r.raised \notin rs THEN (IF r.raised THEN "strict-mode-raised-on-covered-tree" ELSE "strict-mode-did-not-raise")
   ELSE "ok"
 \* a path dropped by A+B although A or B alone passes it is "shadowed" when at some level of the path, in A+B, two really different
 \* rules or forms match the row (competition): annet lets the most specific one govern; if that one hands no children down (%global,
